@@ -4,7 +4,7 @@ Require Import GSE.gen.Consts GSE.model.Base GSE.model.Types GSE.model.Header GS
   GSE.model.Memory GSE.model.Decap
   GSE.proofs.Tactics GSE.proofs.BaseLemmas GSE.proofs.HeaderLemmas GSE.proofs.EncapSpec GSE.proofs.EncapProps
   GSE.proofs.Policy GSE.proofs.MemoryLemmas GSE.proofs.DecapBase GSE.proofs.DecapSpec GSE.proofs.DecapProps
-  GSE.proofs.RoundTrip GSE.proofs.FragTrip.
+  GSE.proofs.RoundTrip GSE.proofs.FragTrip GSE.proofs.ExtSpec GSE.proofs.ExtTrip GSE.proofs.ExtProps.
 Open Scope N_scope.
 #[local] Opaque pkt_complete pkt_first pkt_end pkt_inter.
 
@@ -156,6 +156,63 @@ Definition J (S : enc_state) (g : ghost) (R : dstate) : Prop :=
 Lemma J_init slots maxpdu : J enc_new {| prev := None; run := 0 |} (dec_new slots maxpdu).
 Proof. split; [apply Inv_init|]. split; [apply dstate_wf_mem, mem_ok_new|]. left. reflexivity. Qed.
 
+(* the receiver's answer to a start/complete packet that carries the label written by check_label_re_use keeps the
+   invariant and reports the intended label: independent of the rest of the packet (encap and encap_ext alike) *)
+Lemma lockstep_classify S g R lab s1 l R' r : J S g R -> label_wf lab -> check_reuse_hl S lab = (s1, l) ->
+  dstate_wf R' -> label_step R (label_type l) l R' r ->
+  let '(_, ev) := pstep S (PEncap lab true) in
+  let g' := gstep g (PEncap lab true) ev in
+  J s1 g' R' /\ (forall l0, res_label r = Some l0 -> intended g lab = Some l0).
+Proof.
+  intros (HI & HR & HL) Hw Hc W LS.
+  pose proof HI as (HS & Hprev & Hoff & Hrun).
+  pose proof (Inv_step S g (PEncap lab true) HI Hw) as IS. cbn [pstep] in IS |- *.
+  rewrite Hc in *. cbn [fst] in IS.
+  (* classify the emitted packet *)
+  destruct (check_reuse_full _ _ _ _ HS Hc) as (_ & _ & CF).
+  destruct CF as [(-> & H36 & Hon & Hlast & _)|[(-> & H36 & _)|[(-> & -> & _)|(-> & -> & ->)]]].
+  - (* substitution: the preceding packet carried lab *)
+    assert (Ecl : classify lab LReUse = ESub lab) by (destruct lab; try contradiction; reflexivity).
+    rewrite Ecl in *. cbn [gstep prev] in *. pose proof (Hprev _ Hlast) as Hp.
+    assert (Hint : intended g lab = Some lab) by (destruct lab; try contradiction; reflexivity).
+    cbn [label_type] in LS. unfold label_step in LS. unfold J; cbn [prev].
+    destruct LS as [(Hn & Hres)|[(l0 & Hres & Hd & [[[?|?] _]|[_ Hold]])|(Hres & Hd)]]; try discriminate.
+    + split; [split; [exact IS|split; [exact W|left; exact Hn]]|]. intros l0 Hl0. destruct (Hres _ Hl0) as [? _]; discriminate.
+    + assert (l0 = lab) by (destruct HL as [HL|HL]; congruence). subst l0.
+      split; [split; [exact IS|split; [exact W|right; congruence]]|]. intros l1 Hl1. congruence.
+    + split; [|intros l1 Hl1; congruence]. split; [exact IS|split; [exact W|]].
+      destruct Hd as [Hd|(l0 & Hd & [[[?|?] _]|[_ Hold]])]; try discriminate; [left; exact Hd|].
+      right. destruct HL as [HL|HL]; congruence.
+  - (* full 3/6-byte label *)
+    assert (Ecl : classify lab lab = EFull lab).
+    { destruct lab; try contradiction; unfold classify; (rewrite (proj2 (label_eqb_neq _ LReUse)) by discriminate); reflexivity. }
+    rewrite Ecl in *. cbn [gstep prev] in *.
+    assert (Hint : intended g lab = Some lab) by (destruct lab; try contradiction; reflexivity).
+    assert (Hnr : label_type lab <> TR /\ label_type lab <> TB) by (destruct lab; try contradiction; split; discriminate).
+    unfold label_step in LS. unfold J; cbn [prev].
+    destruct LS as [(Hn & Hres)|[(l0 & Hres & Hd & [[_ ->]|[Ht _]])|(Hres & Hd)]]; try (now destruct Hnr).
+    + split; [split; [exact IS|split; [exact W|left; exact Hn]]|]. intros l0 Hl0. destruct (Hres _ Hl0) as [? _]. now destruct Hnr.
+    + split; [split; [exact IS|split; [exact W|right; exact Hd]]|]. intros l1 Hl1. congruence.
+    + split; [|intros l1 Hl1; congruence]. split; [exact IS|split; [exact W|]].
+      destruct Hd as [Hd|(l0 & Hd & [[_ ->]|[Ht _]])]; [left; exact Hd|right; exact Hd|now destruct Hnr].
+  - (* broadcast *)
+    cbn [classify gstep prev intended label_type] in *. unfold label_step in LS. unfold J; cbn [prev].
+    destruct LS as [(Hn & Hres)|[(l0 & Hres & Hd & [[[?|?] _]|[? _]])|(Hres & Hd)]]; try discriminate.
+    + split; [split; [exact IS|split; [exact W|left; exact Hn]]|]. intros l0 Hl0. destruct (Hres _ Hl0) as [_ ->]. reflexivity.
+    + split; [|intros l1 Hl1; congruence]. split; [exact IS|split; [exact W|]].
+      destruct Hd as [Hd|(l0 & Hd & [[[?|?] _]|[? _]])]; try discriminate. left; exact Hd.
+  - (* re-use passed by the caller: stands for the preceding label *)
+    cbn [classify gstep prev intended label_type] in *. unfold label_step in LS. unfold J; cbn [prev].
+    destruct LS as [(Hn & Hres)|[(l0 & Hres & Hd & [[[?|?] _]|[_ Hold]])|(Hres & Hd)]]; try discriminate.
+    + split; [split; [exact IS|split; [exact W|left; exact Hn]]|]. intros l0 Hl0. destruct (Hres _ Hl0) as [? _]; discriminate.
+    + split; [split; [exact IS|split; [exact W|]]|].
+      * right. destruct HL as [HL|HL]; congruence.
+      * intros l1 Hl1. destruct HL as [HL|HL]; congruence.
+    + split; [|intros l1 Hl1; congruence]. split; [exact IS|split; [exact W|]].
+      destruct Hd as [Hd|(l0 & Hd & [[[?|?] _]|[_ Hold]])]; try discriminate; [left; exact Hd|].
+      right. destruct HL as [HL|HL]; congruence.
+Qed.
+
 (* one start/complete packet of the sender, fed to the receiver *)
 Lemma lockstep_encap S g R pdu fid pt lab buf S' buf' st : J S g R -> label_wf lab -> bytes_ok pdu -> fid < 256 ->
   1536 <= pt < 65536 ->
@@ -223,52 +280,94 @@ Proof.
           - rewrite !app_assoc. rewrite <- (app_assoc _ (label_bytes l)). symmetry. apply dropN_app_eq. reflexivity. }
       destruct (first_hl mgr R (pkt_first l fid tl pt (takeN pe pdu)) (label_type l) _) as [R' r]. eauto. }
   destruct STEP as (R' & r & ED & W & LS). exists R', r. split; [exact ED|].
-  (* classify the emitted packet *)
-  destruct (check_reuse_full _ _ _ _ HS Hc) as (_ & _ & CF).
-  destruct CF as [(-> & H36 & Hon & Hlast & _)|[(-> & H36 & _)|[(-> & -> & _)|(-> & -> & ->)]]].
-  - (* substitution: the preceding packet carried lab *)
-    assert (Ecl : classify lab LReUse = ESub lab) by (destruct lab; try contradiction; reflexivity).
-    rewrite Ecl in *. cbn [gstep prev] in *. pose proof (Hprev _ Hlast) as Hp.
-    assert (Hint : intended g lab = Some lab) by (destruct lab; try contradiction; reflexivity).
-    cbn [label_type] in LS. unfold label_step in LS. unfold J; cbn [prev].
-    destruct LS as [(Hn & Hres)|[(l0 & Hres & Hd & [[[?|?] _]|[_ Hold]])|(Hres & Hd)]]; try discriminate.
-    + split; [split; [exact IS|split; [exact W|left; exact Hn]]|]. intros l0 Hl0. destruct (Hres _ Hl0) as [? _]; discriminate.
-    + assert (l0 = lab) by (destruct HL as [HL|HL]; congruence). subst l0.
-      split; [split; [exact IS|split; [exact W|right; congruence]]|]. intros l1 Hl1. congruence.
-    + split; [|intros l1 Hl1; congruence]. split; [exact IS|split; [exact W|]].
-      destruct Hd as [Hd|(l0 & Hd & [[[?|?] _]|[_ Hold]])]; try discriminate; [left; exact Hd|].
-      right. destruct HL as [HL|HL]; congruence.
-  - (* full 3/6-byte label *)
-    assert (Ecl : classify lab lab = EFull lab).
-    { destruct lab; try contradiction; unfold classify; (rewrite (proj2 (label_eqb_neq _ LReUse)) by discriminate); reflexivity. }
-    rewrite Ecl in *. cbn [gstep prev] in *.
-    assert (Hint : intended g lab = Some lab) by (destruct lab; try contradiction; reflexivity).
-    assert (Hnr : label_type lab <> TR /\ label_type lab <> TB) by (destruct lab; try contradiction; split; discriminate).
-    unfold label_step in LS. unfold J; cbn [prev].
-    destruct LS as [(Hn & Hres)|[(l0 & Hres & Hd & [[_ ->]|[Ht _]])|(Hres & Hd)]]; try (now destruct Hnr).
-    + split; [split; [exact IS|split; [exact W|left; exact Hn]]|]. intros l0 Hl0. destruct (Hres _ Hl0) as [? _]. now destruct Hnr.
-    + split; [split; [exact IS|split; [exact W|right; exact Hd]]|]. intros l1 Hl1. congruence.
-    + split; [|intros l1 Hl1; congruence]. split; [exact IS|split; [exact W|]].
-      destruct Hd as [Hd|(l0 & Hd & [[_ ->]|[Ht _]])]; [left; exact Hd|right; exact Hd|now destruct Hnr].
-  - (* broadcast *)
-    cbn [classify gstep prev intended label_type] in *. unfold label_step in LS. unfold J; cbn [prev].
-    destruct LS as [(Hn & Hres)|[(l0 & Hres & Hd & [[[?|?] _]|[? _]])|(Hres & Hd)]]; try discriminate.
-    + split; [split; [exact IS|split; [exact W|left; exact Hn]]|]. intros l0 Hl0. destruct (Hres _ Hl0) as [_ ->]. reflexivity.
-    + split; [|intros l1 Hl1; congruence]. split; [exact IS|split; [exact W|]].
-      destruct Hd as [Hd|(l0 & Hd & [[[?|?] _]|[? _]])]; try discriminate. left; exact Hd.
-  - (* re-use passed by the caller: stands for the preceding label *)
-    cbn [classify gstep prev intended label_type] in *. unfold label_step in LS. unfold J; cbn [prev].
-    destruct LS as [(Hn & Hres)|[(l0 & Hres & Hd & [[[?|?] _]|[_ Hold]])|(Hres & Hd)]]; try discriminate.
-    + split; [split; [exact IS|split; [exact W|left; exact Hn]]|]. intros l0 Hl0. destruct (Hres _ Hl0) as [? _]; discriminate.
-    + split; [split; [exact IS|split; [exact W|]]|].
-      * right. destruct HL as [HL|HL]; congruence.
-      * intros l1 Hl1. destruct HL as [HL|HL]; congruence.
-    + split; [|intros l1 Hl1; congruence]. split; [exact IS|split; [exact W|]].
-      destruct Hd as [Hd|(l0 & Hd & [[[?|?] _]|[_ Hold]])]; try discriminate; [left; exact Hd|].
-      right. destruct HL as [HL|HL]; congruence.
+  pose proof (lockstep_classify S g R lab s1 l R' r (conj HI (conj HR HL)) Hw Hc W LS) as K. cbn [pstep] in K. rewrite Hc in K. exact K.
 Qed.
 
 End LockStep.
+
+#[local] Opaque pkt_complete_x pkt_first_x.
+Section LockStepExt.
+Variable crc : list byte -> N -> N -> list byte -> N.
+Variable mgr : N -> mand.
+
+Lemma pkt_complete_x_label l id0 chain pdu : label_wf l ->
+  mk_label (label_type l) (takeN (lt_len (label_type l)) (dropN 4 (pkt_complete_x l id0 chain pdu))) = l.
+Proof.
+  intro Hw. rewrite (lt_len_label l Hw). with_strategy transparent [pkt_complete_x] unfold pkt_complete_x.
+  set (hdr := be16 _).
+  replace (dropN 4 (hdr ++ be16 id0 ++ label_bytes l ++ chain ++ pdu)) with (label_bytes l ++ chain ++ pdu).
+  - rewrite takeN_app_eq by reflexivity. apply mk_label_bytes.
+  - replace (hdr ++ be16 id0 ++ label_bytes l ++ chain ++ pdu) with ((hdr ++ be16 id0) ++ label_bytes l ++ chain ++ pdu) by (now rewrite <- !app_assoc).
+    symmetry. apply dropN_app_eq. reflexivity.
+Qed.
+Lemma pkt_first_x_label l fid tl id0 chain payload : label_wf l ->
+  mk_label (label_type l) (takeN (lt_len (label_type l)) (dropN 7 (pkt_first_x l fid tl id0 chain payload))) = l.
+Proof.
+  intro Hw. rewrite (lt_len_label l Hw). with_strategy transparent [pkt_first_x] unfold pkt_first_x.
+  set (hdr := be16 _).
+  replace (dropN 7 (hdr ++ [fid] ++ be16 tl ++ be16 id0 ++ label_bytes l ++ chain ++ payload)) with (label_bytes l ++ chain ++ payload).
+  - rewrite takeN_app_eq by reflexivity. apply mk_label_bytes.
+  - replace (hdr ++ [fid] ++ be16 tl ++ be16 id0 ++ label_bytes l ++ chain ++ payload)
+      with ((hdr ++ [fid] ++ be16 tl ++ be16 id0) ++ label_bytes l ++ chain ++ payload) by (now rewrite <- !app_assoc).
+    symmetry. apply dropN_app_eq. reflexivity.
+Qed.
+
+(* one start/complete packet of encap_ext, fed to the receiver (any manager, any outcome at the receiver) *)
+Lemma lockstep_encap_ext S g R pdu fid pt lab buf exts S' buf' st : J S g R -> label_wf lab -> bytes_ok pdu -> fid < 256 ->
+  pt < 65536 -> Forall ext_built exts -> Forall (fun e => bytes_ok (ext_bytes e)) exts ->
+  encap_ext crc S pdu fid pt lab buf exts = Ret (S', buf', inl st) ->
+  let n := match st with Completed n | Fragmented n _ => n end in
+  let '(_, ev) := pstep S (PEncap lab true) in
+  let g' := gstep g (PEncap lab true) ev in
+  exists R' r, decap crc mgr R (takeN n buf') = Ret (R', r) /\ J S' g' R' /\
+    (forall l, res_label r = Some l -> intended g lab = Some l).
+Proof.
+  intros HJ Hw Hpdu Hfid Hpt Hb Hbo He. pose proof HJ as (HI & HR & HL). pose proof HI as (HS & _).
+  assert (Hxw : Forall ext_wf exts) by (revert Hb; apply Forall_impl; exact ext_built_wf).
+  rewrite encap_ext_spec in He by assumption. injection He as He.
+  assert (Hfi : first_id exts pt < 65536) by (apply first_id_lt; assumption).
+  destruct (check_reuse_hl S lab) as [s1 l] eqn:Hc.
+  pose proof (check_reuse_label_wf _ _ _ _ Hw Hc) as Hwl.
+  pose proof (lt_len_label l Hwl) as Hll. pose proof (lt_len_le (label_type l)) as Hl6.
+  assert (STEP : S' = s1 /\ exists R' r, decap crc mgr R (takeN (match st with Completed n | Fragmented n _ => n end) buf') = Ret (R', r)
+                   /\ dstate_wf R' /\ label_step R (label_type l) l R' r).
+  { destruct st as [n|n c].
+    - destruct (encap_ext_completed crc _ _ _ _ _ _ _ _ _ _ Hw He) as (_ & _ & HS' & Hb' & Hn & Hnb & Hg).
+      rewrite Hc in *. cbn [fst snd] in *. split; [exact HS'|].
+      set (chain := chain_bytes exts (pt <? 256) pt) in *. set (p := pkt_complete_x l (first_id exts pt) chain pdu) in *.
+      assert (Lp : lenN p = n) by (subst p; rewrite (lenN_pkt_complete_x crc); lia).
+      rewrite Hb', takeN_app_eq by lia.
+      assert (Hbp : bytes_ok p) by (apply pkt_complete_x_ok; auto; now apply chain_bytes_ok).
+      rewrite decap_spec by assumption. pose proof (decap_hl_wf crc mgr R _ HR Hbp) as W.
+      assert (DP1 : lenN p = (lenN pdu + lenN (label_bytes l) + 2 + lenN chain) + 2) by lia.
+      assert (DP2 : hdr_view (rd16 (takeN 2 p)) = Some (lenN pdu + lenN (label_bytes l) + 2 + lenN chain, KComplete, label_type l)).
+      { subst p. with_strategy transparent [pkt_complete_x] unfold pkt_complete_x. rewrite take2_be16, rd16_be16 by (apply hdr_arith_lt; lia).
+        apply hdr_view_arith; [lia|intros [? _]; discriminate]. }
+      pose proof (decap_hl_packet crc mgr R p [] _ _ _ DP1 DP2) as DP. rewrite app_nil_r in DP. rewrite DP in *.
+      pose proof (complete_hl_labels mgr R p (label_type l) (lenN p + lenN (@nil N))) as LS. cbv zeta in LS.
+      subst p. rewrite pkt_complete_x_label in LS by assumption.
+      destruct (complete_hl mgr R _ (label_type l) _) as [R' r]. eauto.
+    - destruct (encap_ext_fragmented crc _ _ _ _ _ _ _ _ _ _ _ Hw He) as (_ & _ & HS' & Hb' & _ & Hn & Hnb & Hlt & Htl & Hg).
+      rewrite Hc in *. cbn [fst snd] in *. split; [exact HS'|].
+      set (chain := chain_bytes exts (pt <? 256) pt) in *. set (tl := lenN pdu + 2 + lenN (label_bytes l)) in *.
+      set (p := pkt_first_x l fid tl (first_id exts pt) chain (takeN (cf_len c) pdu)) in *.
+      assert (Lt : lenN (takeN (cf_len c) pdu) = cf_len c) by (rewrite lenN_takeN; lia).
+      assert (Lp : lenN p = n) by (subst p; rewrite (lenN_pkt_first_x crc), Lt; lia).
+      rewrite Hb', takeN_app_eq by lia.
+      assert (Hbp : bytes_ok p) by (apply pkt_first_x_ok; auto; [now apply chain_bytes_ok|now apply bytes_ok_takeN]).
+      rewrite decap_spec by assumption. pose proof (decap_hl_wf crc mgr R _ HR Hbp) as W.
+      assert (DP1 : lenN p = (5 + lenN (label_bytes l) + lenN chain + cf_len c) + 2) by lia.
+      assert (DP2 : hdr_view (rd16 (takeN 2 p)) = Some (5 + lenN (label_bytes l) + lenN chain + cf_len c, KFirst, label_type l)).
+      { subst p. with_strategy transparent [pkt_first_x] unfold pkt_first_x. rewrite Lt. rewrite take2_be16, rd16_be16 by (apply hdr_arith_lt; lia).
+        apply hdr_view_arith; [lia|intros [? _]; discriminate]. }
+      pose proof (decap_hl_packet crc mgr R p [] _ _ _ DP1 DP2) as DP. rewrite app_nil_r in DP. rewrite DP in *.
+      pose proof (first_hl_labels mgr R p (label_type l) (lenN p + lenN (@nil N))) as LS. cbv zeta in LS.
+      subst p. rewrite pkt_first_x_label in LS by assumption.
+      destruct (first_hl mgr R _ (label_type l) _) as [R' r]. eauto. }
+  destruct STEP as (-> & R' & r & ED & W & LS). cbn [pstep]. rewrite Hc. exists R', r. split; [exact ED|].
+  pose proof (lockstep_classify S g R lab s1 l R' r HJ Hw Hc W LS) as K. cbn [pstep] in K. rewrite Hc in K. exact K.
+Qed.
+End LockStepExt.
 
 (* ---------- histories ---------- *)
 Section Histories.
@@ -277,6 +376,7 @@ Variable mgr : N -> mand.
 
 Inductive sop :=
   | SEncap (pdu : list byte) (fid pt : N) (lab : label) (buf : list byte)   (* encap; the packet, if any, is delivered *)
+  | SEncapExt (pdu : list byte) (fid pt : N) (lab : label) (buf : list byte) (exts : list ext)   (* encap_ext, likewise *)
   | SCont (p : list byte)            (* an intermediate / end packet (encap_frag output) is delivered *)
   | SReset                           (* frame boundary: label memories reset on both sides *)
   | SDisable | SEnable | SEnableMax (m : N)
@@ -285,6 +385,8 @@ Inductive sop :=
 Definition sop_ok (o : sop) : Prop :=
   match o with
   | SEncap pdu fid pt lab _ => label_wf lab /\ bytes_ok pdu /\ fid < 256 /\ 1536 <= pt < 65536
+  | SEncapExt pdu fid pt lab _ exts => label_wf lab /\ bytes_ok pdu /\ fid < 256 /\ pt < 65536 /\
+                                       Forall ext_built exts /\ Forall (fun e => bytes_ok (ext_bytes e)) exts
   | SCont p => bytes_ok p /\ exists gl k t, hdr_view (rd16 (takeN 2 p)) = Some (gl, k, t) /\ (k = KInter \/ k = KEnd)
   | SEnableMax m => m < 256
   | _ => True
@@ -298,6 +400,16 @@ Definition sstep (w : enc_state * ghost * dstate) (o : sop)
   match o with
   | SEncap pdu fid pt lab buf =>
     do '(S', buf', r) <- encap crc St pdu fid pt lab buf;
+    match r with
+    | inr _ => Ret (S', g, R, [])
+    | inl st =>
+      let n := match st with Completed n | Fragmented n _ => n end in
+      let g' := gstep g (PEncap lab true) (snd (pstep St (PEncap lab true))) in
+      do '(R', dr) <- decap crc mgr R (takeN n buf');
+      Ret (S', g', R', match res_label dr with Some l => [(intended g lab, l)] | None => [] end)
+    end
+  | SEncapExt pdu fid pt lab buf exts =>
+    do '(S', buf', r) <- encap_ext crc St pdu fid pt lab buf exts;
     match r with
     | inr _ => Ret (S', g, R, [])
     | inl st =>
@@ -325,7 +437,7 @@ Lemma sstep_J S g R o : J S g R -> sop_ok o ->
   exists S' g' R' d, sstep (S, g, R) o = Ret (S', g', R', d) /\ J S' g' R' /\ Forall (fun p => fst p = Some (snd p)) d.
 Proof.
   intros HJ Hok. pose proof HJ as (HI & HR & HL). pose proof HI as (HS & _).
-  destruct o as [pdu fid pt lab buf|p| | | |m|b|]; cbn [sstep sop_ok] in *.
+  destruct o as [pdu fid pt lab buf|pdu fid pt lab buf exts|p| | | |m|b|]; cbn [sstep sop_ok] in *.
   - destruct Hok as (Hw & Hpdu & Hfid & Hpt).
     destruct (encap_total crc S pdu fid pt lab buf HS Hw) as ([[S' buf'] r] & E). rewrite E. cbn [bind].
     destruct r as [st|e].
@@ -335,6 +447,19 @@ Proof.
       eexists _, _, _, _. split; [reflexivity|]. split; [exact HJ'|].
       destruct (res_label r) as [l|]; [|constructor]. constructor; [|constructor]. cbn [fst snd]. now apply Hlab.
     + destruct (encap_atomic crc S pdu fid pt lab buf S' buf' e HS Hw E) as [-> _].
+      eexists _, _, _, _. split; [reflexivity|]. split; [exact HJ|constructor].
+  - destruct Hok as (Hw & Hpdu & Hfid & Hpt & Hx & Hxo).
+    assert (Hxw : Forall ext_wf exts) by (revert Hx; apply Forall_impl; exact ext_built_wf).
+    rewrite encap_ext_spec by assumption. cbn [bind].
+    destruct (encap_ext_hl crc S pdu fid pt lab buf exts) as [[S' buf'] r] eqn:E.
+    assert (E' : encap_ext crc S pdu fid pt lab buf exts = Ret (S', buf', r)) by (rewrite encap_ext_spec by assumption; now rewrite E).
+    destruct r as [st|e].
+    + pose proof (lockstep_encap_ext crc mgr S g R pdu fid pt lab buf exts S' buf' st HJ Hw Hpdu Hfid Hpt Hx Hxo E') as L. cbv zeta in L.
+      destruct (pstep S (PEncap lab true)) as [s1 ev] eqn:Ep. cbn [snd].
+      destruct L as (R' & r & ED & HJ' & Hlab). rewrite ED. cbn [bind].
+      eexists _, _, _, _. split; [reflexivity|]. split; [exact HJ'|].
+      destruct (res_label r) as [l|]; [|constructor]. constructor; [|constructor]. cbn [fst snd]. now apply Hlab.
+    + destruct (encap_ext_hl_err crc S pdu fid pt lab buf exts S' buf' e E) as [-> _].
       eexists _, _, _, _. split; [reflexivity|]. split; [exact HJ|constructor].
   - destruct Hok as (Hb & gl & k & t & Hv & Hk). rewrite decap_spec by assumption.
     pose proof (decap_hl_wf crc mgr R p HR Hb) as W. pose proof (decap_hl_label_memory crc mgr R p) as LM. cbv zeta in LM.
